@@ -846,15 +846,21 @@ func (o *out) condOf(fs funcSpec, marker string, nth ...int) {
 	}
 	var found ast.Expr
 	k := 0
+	wantIf, wantFor := true, true
+	if strings.HasPrefix(marker, "for:") {
+		marker, wantIf = marker[4:], false
+	} else if strings.HasPrefix(marker, "if:") {
+		marker, wantFor = marker[3:], false
+	}
 	ast.Inspect(fd.Body, func(n ast.Node) bool {
 		if found != nil {
 			return false
 		}
 		var cond ast.Expr
-		if is, ok := n.(*ast.IfStmt); ok {
+		if is, ok := n.(*ast.IfStmt); ok && wantIf {
 			cond = is.Cond
 		}
-		if fs, ok := n.(*ast.ForStmt); ok && fs.Cond != nil {
+		if fs, ok := n.(*ast.ForStmt); ok && fs.Cond != nil && wantFor {
 			cond = fs.Cond
 		}
 		if cond != nil && strings.Contains(printNode(p.fset, cond), marker) {
